@@ -25,6 +25,7 @@ import random
 from typing import Any, Dict, List, Optional, Tuple
 
 import core
+import ptcheck
 import ptgen
 from core import sx
 
@@ -181,6 +182,19 @@ def observe(case: dict) -> dict:
     pt = ent['pt']
     params = dict(case['params'])
     impl: Dict[str, Any] = {'q': quantities(ent['sym'], params)}
+    # `top_cm`: channels renamed / dropped by `create_program(channel_mapping=..)`.  The Lean side sees the same thing as a
+    # MappingPT around the tree (used for serialisation only); the symbolic quantities are the bare template's, under
+    # the new channel names
+    top_cm = case.get('top_cm') or None
+    kw: Dict[str, Any] = {}
+    ser_pt = pt
+    if top_cm:
+        import qupulse.pulses as qp
+        kw['channel_mapping'] = dict(top_cm)
+        ser_pt = qp.MappingPT(pt, channel_mapping=dict(top_cm))
+        impl['q'] = {q: (d if isinstance(d, str) else {top_cm.get(ch, ch): v for ch, v in d.items()
+                                                       if top_cm.get(ch, ch) is not None})
+                     for q, d in impl['q'].items()}
     try:
         td = pt.duration.evaluate_in_scope(dict(params))
         impl['tdur'] = ('ok', ptgen.num_frac(td))
@@ -188,7 +202,7 @@ def observe(case: dict) -> dict:
         impl['tdur'] = ('error', core.classify_exception(exc))
     segs = None
     try:
-        prog = pt.create_program(parameters=params)
+        prog = pt.create_program(parameters=params, **kw)
         if prog is None:
             impl['status'] = 'empty'
         else:
@@ -222,7 +236,7 @@ def observe(case: dict) -> dict:
                     padded = ent['padded'] = pt.pad_to(lambda dur, extra=float(extra): dur + extra)
             else:
                 padded = pt.pad_to(float(new_dur))
-            pprog = padded.create_program(parameters=params)
+            pprog = padded.create_program(parameters=params, **kw)
             if pprog is None:
                 pad['status'] = 'empty'
             else:
@@ -236,7 +250,7 @@ def observe(case: dict) -> dict:
             pad['status'] = 'error'
             pad['error'] = core.classify_exception(exc)
     impl['pad'] = pad
-    return {'pt': pt, 'impl': impl}
+    return {'pt': ser_pt, 'impl': impl}
 
 
 def request_line(pt, case: dict, impl: dict) -> str:
@@ -379,8 +393,98 @@ def range_descs(lo: int, hi: int, steps: List[int]) -> List[dict]:
     return out
 
 
+POINT_CHANS = ['X', 'Y', 'Z', 'W']
+
+
+def point_drop_case(rng: random.Random) -> dict:
+    """a multi channel PointPT with per-channel DIFFERENT (vector valued) entry voltages, instantiated with a channel
+    dropped that is not the last of `channel_names` (further channels dropped / renamed at random): by a MappingPT
+    (`mode` map) or by `create_program(channel_mapping=..)` (`mode` top); plain, in a sequence, repeated, iterated (the index
+    in the voltages), inside an atomic multi channel template; the symbolic quantities of the remaining channels against
+    the instantiated pulse, `pad_to` against the voltage the pulse ends on"""
+    fs = ptgen.fstr
+    n = rng.choice([2, 3, 3, 4])
+    chans = rng.sample(POINT_CHANS, n)
+    wrap = rng.choice(['plain', 'plain', 'plain', 'seq', 'rep', 'for', 'amulti'])
+    mode = 'top' if (wrap != 'amulti' and rng.random() < 0.4) else 'map'
+    literal_times = wrap == 'amulti' or rng.random() < 0.5
+    n_e = rng.choice([2, 3, 3, 4])
+    t = F(0) if rng.random() < 0.7 else rng.choice([F(1, 2), F(1)])
+    entries = []
+    for j in range(n_e):
+        ts = fs(t) if (literal_times or j == 0) else ('d + %s' % fs(t - 1) if t != 1 else 'd')     # d = 1
+        if rng.random() < 0.85 or j == n_e - 1:
+            base, step = F(rng.randrange(-16, 17), 8), F(rng.choice([1, 2, 3, -1, -2, 5]), 8)
+            vec = []
+            for i in range(n):
+                val = base + i * step                         # pairwise different
+                form = rng.random()
+                if form < 0.4:
+                    e = fs(val)
+                elif form < 0.8:
+                    e = 'v + %s' % fs(val - F(1, 4))          # v = 1/4
+                else:
+                    e = '2*v + %s' % fs(val - F(1, 2))
+                if wrap == 'for' and (i == 0 or rng.random() < 0.3):
+                    e += ' + i/4'
+                vec.append(e)
+            v: Any = vec
+        else:
+            v = rng.choice(['v', '0.375', '2*v - 1'])
+        interp = 'hold' if j == 0 else rng.choice(['hold', 'linear', 'linear', 'linear', 'jump'] if j == 1 else
+                                                  ['hold', 'linear', 'linear'])
+        entries.append([ts, v, interp])
+        t += rng.choice([F(1, 2), F(1), F(2)])
+    point = {'k': 'point', 'chans': list(chans), 'entries': entries, 'meas': [], 'cons': []}
+    # the dropped set: one channel that is NOT the last, others at random, at least one channel stays
+    drop = {chans[rng.randrange(n - 1)]}
+    for c in chans:
+        if c not in drop and len(drop) < n - 1 and rng.random() < 0.25:
+            drop.add(c)
+    new_names = ['P', 'Q', 'R', 'S']
+    rng.shuffle(new_names)
+    cm = {}
+    for c in chans:
+        if c in drop:
+            cm[c] = None
+        elif rng.random() < 0.3:
+            cm[c] = new_names.pop()
+    kept = [cm.get(c, c) for c in chans if cm.get(c, c) is not None]
+    inner_kept = kept if mode == 'map' else [c for c in chans]
+    x: dict = point
+    if mode == 'map':
+        x = {'k': 'map', 'body': point, 'pm': None, 'mm': None, 'cm': [[a, b] for a, b in cm.items()]}
+    if wrap == 'seq':
+        tail = {'k': 'const', 'dur': '0.5', 'amps': [[c, fs(F(rng.randrange(-8, 9), 8))] for c in inner_kept], 'meas': []}
+        x = {'k': 'seq', 'subs': [x, tail] if rng.random() < 0.5 else [tail, x], 'meas': [], 'cons': []}
+    elif wrap == 'rep':
+        x = {'k': 'rep', 'body': x, 'count': 'n', 'meas': [], 'cons': []}
+    elif wrap == 'for':
+        x = {'k': 'for', 'body': x, 'idx': 'i', 'range': ['0', 'n', '1'], 'meas': [], 'cons': []}
+    elif wrap == 'amulti':
+        last_t = entries[-1][0]
+        other = {'k': 'const', 'dur': last_t, 'amps': [['U', '0.625']], 'meas': []}
+        x = {'k': 'amulti', 'subs': [x, other], 'meas': [], 'cons': []}
+    case = {'spec': x, 'params': {'v': 0.25, 'd': 1, 'n': rng.choice([1, 2, 3])}, 'cm': {}, 'mm': None, 'single': [],
+            'pad': rng.choice([F(1, 2), F(3, 4), F(2)]) if rng.random() < 0.7 else None}
+    if mode == 'top':
+        case['top_cm'] = cm
+    return case
+
+
 def make_case(desc: dict) -> Optional[dict]:
     fam = desc['family']
+    if fam == 'point-drop':
+        rng = random.Random(desc['seed'])
+        for _ in range(6):
+            case = point_drop_case(rng)
+            try:
+                pt = ptgen.build(copy.deepcopy(case['spec']))
+            except Exception:  # noqa -- e.g. a zero length atomic multi channel part
+                continue
+            case['params'] = {k: v for k, v in case['params'].items() if k in pt.parameter_names}
+            return case
+        return None
     if fam == 'given':
         c = dict(desc['case'])
         if c.get('pad') is not None:
@@ -422,6 +526,8 @@ def make_case(desc: dict) -> Optional[dict]:
 def case_json(case: dict) -> dict:
     d = ptgen.case_json(case)
     d['pad'] = None if case.get('pad') is None else str(case['pad'])
+    if case.get('top_cm'):
+        d['top_cm'] = dict(case['top_cm'])
     return d
 
 
@@ -444,8 +550,13 @@ def work(desc: dict) -> Optional[dict]:
     kinds = ptgen.spec_kinds(case['spec'])
     keep = ptgen.all_atoms_keep_channel(pt, {c: c for c in pt.defined_channels})
     complete = set(pt.parameter_names) <= set(case['params'])
+    try:
+        pf11 = sorted(ptcheck.pf11_channels(pt, {c: c for c in pt.defined_channels}))
+    except Exception:  # noqa
+        pf11 = sorted(pt.defined_channels)
     return {'case': case_json(case), 'impl': obs['impl'], 'line': line,
-            'meta': {'kinds': kinds, 'depth': ptgen.spec_depth(case['spec']), 'keep': keep, 'complete': complete},
+            'meta': {'kinds': kinds, 'depth': ptgen.spec_depth(case['spec']), 'keep': keep, 'complete': complete,
+                     'pf11': pf11},
             'family': desc['family'], 'label': desc.get('label', desc['family'])}
 
 
@@ -561,6 +672,25 @@ def expected_values(rec, ch) -> Dict[str, List[Tuple[str, F]]]:
     return out
 
 
+def program_reference(rec, ch) -> Optional[dict]:
+    """integral / first / last of what the REAL program plays on `ch`, if that has to be the only reference: the program
+    was sampled, its integral on `ch` differs from the integral of what the template denotes (a real deviation, not a
+    zero length piece the sampling cannot see) and the channel is outside the class of the open finding PF-11 (C01 /
+    C05: a ParallelChannelPT below a transformation -- there the program is known to deviate from denote and either
+    value is accepted)."""
+    impl, reply = rec['impl'], rec['reply']
+    spec = reply['spec']
+    if impl['status'] != 'ok' or not impl.get('segs') or ch not in reply['sampled']:
+        return None
+    if spec['status'] != 'ok' or ch not in spec['chans']:
+        return None
+    if reply['sampled'][ch]['integral'] == spec['chans'][ch]['integral']:
+        return None
+    if ch in rec['meta'].get('pf11', []):
+        return None
+    return reply['sampled'][ch]
+
+
 def judge(rec) -> Tuple[List[dict], List[dict]]:
     """(b) the real symbolic results against the instantiated pulse.  Returns (violations, known):
     each entry {'clause', 'channel', 'what', 'finding'?}"""
@@ -584,6 +714,7 @@ def judge(rec) -> Tuple[List[dict], List[dict]]:
     spec = reply['spec']
     for ch in reply['chans']:
         exp = expected_values(rec, ch)
+        prow = program_reference(rec, ch)
         tags = {'first': [], 'last': []}
         if spec['status'] == 'ok' and ch in spec['chans']:
             tags['first'] = spec['chans'][ch].get('tags-first', [])
@@ -610,6 +741,15 @@ def judge(rec) -> Tuple[List[dict], List[dict]]:
                                      % (ATTR[q], ch, iv[1], want[0][1])})
                 continue
             if any(iv[1] == w for _src, w in want):
+                if prow is not None and prow[key] is not None and iv[1] != prow[key]:
+                    # the value agrees with what the template denotes, but the REAL program plays something else on this
+                    # channel (its integral differs from the denoted one, so this is not a zero length piece that sampling
+                    # cannot see): the property is about the instantiated pulse
+                    what = '%s[%s] evaluates to %s, the instantiated program plays %s (the template denotes %s' % (
+                        ATTR[q], ch, iv[1], prow[key], spec['chans'][ch][key])
+                    what += ')' if key == 'integral' else '; the played channel integrates to %s, the denoted one to %s)' % (
+                        prow['integral'], spec['chans'][ch]['integral'])
+                    viol.append({'clause': q, 'channel': ch, 'what': what})
                 continue
             t = [x for x in tags.get(key, []) if x != 'error'] if key != 'integral' else []
             what = '%s[%s] evaluates to %s, the instantiated pulse has %s' % (
@@ -640,6 +780,9 @@ def judge(rec) -> Tuple[List[dict], List[dict]]:
             if not tail:
                 continue
             exp = expected_values(rec, ch)['last']
+            prow = program_reference(rec, ch)
+            if prow is not None and prow['last'] is not None:
+                exp = [('program', prow['last'])]        # the real program deviates from denote here: it is the reference
             tg = []
             if spec['status'] == 'ok' and ch in spec['chans']:
                 tg = spec['chans'][ch].get('tags-last', [])
@@ -709,6 +852,8 @@ def assess(ctx, rec, count=True):
                     ctx.count('class:' + t)
                 if impl.get('segs') and ch in reply['sampled'] and reply['sampled'][ch]['integral'] != row['integral']:
                     ctx.count('program-deviates-from-denote')
+                    ctx.count('program-deviates-from-denote:' + ('PF-11 class, either value accepted'
+                                                                 if ch in rec['meta'].get('pf11', []) else 'program is the reference'))
         for m in reply['model'].values():
             for q in QUANTS:
                 if m[q][0] == 'error' and m[q][1] == 'unsupported':
@@ -737,7 +882,10 @@ def range_shape(case) -> str:
 
 
 def summary(rec) -> str:
-    return 'kinds=%s params=%s' % ('/'.join(rec['meta']['kinds']), rec['case']['params'])
+    s = 'kinds=%s params=%s' % ('/'.join(rec['meta']['kinds']), rec['case']['params'])
+    if rec['case'].get('top_cm'):
+        s += ' create_program(channel_mapping=%s)' % rec['case']['top_cm']
+    return s
 
 
 def replay_record(rec, what, extra=None) -> dict:
@@ -1378,7 +1526,10 @@ def run(ctx: core.Ctx):
                 'generator ptgen over all 13 classes built from the real qupulse classes (dyadic numbers; TimeReversalPT, '
                 'which only implements the integral, thinned out); (3) all nestings of depth <= 3 over two atoms; '
                 '(4) a single-fault malformed stream (closed forms still evaluated, nothing judged when create_program '
-                'rejects); every case with pad_to; (5) shared objects / query history: one atom OBJECT (every atomic class, hand-made and '
+                'rejects); every case with pad_to; (4b) multi channel point templates with per-channel different (vector) entry '
+                'voltages instantiated with a channel dropped that is not the last one (MappingPT or '
+                'create_program(channel_mapping), further drops / renames, plain / sequence / repetition / iteration / atomic '
+                'multi channel): quantities of the remaining channels and pad_to against the REAL program; (5) shared objects / query history: one atom OBJECT (every atomic class, hand-made and '
                 'random) used by several templates (two loops with different ranges, parallel channel, repetition, mapping, '
                 'sequence, arithmetic, stand-alone), integral / initial_values / final_values / pad_to queried in varying '
                 'orders and repeatedly, result dicts mutated by the caller in between: every answer must equal the answer of a '
@@ -1416,6 +1567,9 @@ def run(ctx: core.Ctx):
     base = ctx.fork('malformed').getrandbits(48)
     for i in range(ctx.n(50, 1200)):
         descs.append({'family': 'malformed', 'seed': base + i})
+    base = ctx.fork('point-drop').getrandbits(48)
+    for i in range(ctx.n(160, 4000)):
+        descs.append({'family': 'point-drop', 'seed': base + i, 'label': 'point-drop'})
     recs = run_descs(ctx, descs)
     for rec in recs:
         diffs, viols, known = assess(ctx, rec)
